@@ -6,7 +6,7 @@ const TAGS = {
   div: { open: 'div' }, Comp: { open: 'Comp' }, member: { open: 'a.b' }, member3: { open: 'a.b.c' }, thisx: { open: 'this.x', method: true },
   nstag: { open: 'ns:tag' }, svgns: { open: 'svg:rect' }, dashed: { open: 'a-b' }, frag: { open: '' },
 };
-const ATTR_NAMES = ['p', 'ns:name', 'v-foo', 'vFoo', 'v-foo:arg_mod', 'v-foo_a-b', 'v-model', 'v-model:a', 'v-model_m', 'v-models', 'v-slots', 'v-html', 'v-text', 'v-show', 'on', 'class', 'key', 'ref'];
+const ATTR_NAMES = ['{...x}', 'p', 'ns:name', 'v-foo', 'vFoo', 'v-foo:arg_mod', 'v-foo_a-b', 'v-model', 'v-model:a', 'v-model_m', 'v-models', 'v-slots', 'v-html', 'v-text', 'v-show', 'on', 'class', 'key', 'ref'];
 const ATTR_VALUES = {
   absent: '', str: '="s"', strEmpty: '=""', x: '={x}', arrEmpty: '={[]}', arrHole: '={[,]}', arrHole2: '={[, x]}', arr1: '={[x]}', arrSpread: '={[...x]}', arrArg: "={[x, 'a']}",
   arrMods: "={[x, ['m']]}", arrOdd: "={[x, y, ['a-b', 'c d', '1x']]}", arr2d: "={[[x], [y, 'n']]}", arr2dOdd: '={[[], [, x], x, [...x]]}', arrModsOdd: '={[x, [y, ...x, 1]]}',
@@ -17,10 +17,10 @@ const PRAGMAS = {
   none: '', block: '/* @jsx h */\n', jsdoc: '/** @jsx h */\n', words: '/* @jsx h more words */\n', importSource: '/** @jsxImportSource vue */\n', runtime: '/* @jsxRuntime automatic */\n',
   frag: '/* @jsxFrag F */\n', line: '// @jsx h\n', bare: '/* @jsx */\n', multi: '/**\n * @jsx h\n * @license MIT\n */\n', prose: '// we do not set the @jsx pragma here\n',
 };
-const NAME_CORE = ['p', 'ns:name', 'v-foo:arg_mod', 'v-model', 'v-models', 'v-slots', 'v-html', 'v-show'];
+const NAME_CORE = ['{...x}', 'p', 'ns:name', 'v-foo:arg_mod', 'v-model', 'v-models', 'v-slots', 'v-html', 'v-show'];
 const VALUE_CORE = ['absent', 'str', 'x', 'arrHole', 'arrOdd', 'arr2d', 'el', 'frag'];
 
-function attrSrc(a) { return a.n + ATTR_VALUES[a.v]; }
+function attrSrc(a) { return a.n[0] === '{' ? a.n : a.n + ATTR_VALUES[a.v]; }
 
 function render(c) {
   const t = TAGS[c.tag];
@@ -47,12 +47,13 @@ function* cases(tier) {
     if (tag === 'frag') { yield { ts, tag, attrs: [], ch, pragma: 'none' }; continue; }
     yield { ts, tag, attrs: [], ch, pragma: 'none' };
     if (!thorough && !['none', 'text', 'empty', 'el'].includes(ch)) continue;
-    for (const n of ATTR_NAMES) for (const v of Object.keys(ATTR_VALUES)) yield { ts, tag, attrs: [{ n, v }], ch, pragma: 'none' };
+    for (const n of ATTR_NAMES) for (const v of Object.keys(ATTR_VALUES)) { if (n[0] === '{' && v !== 'absent') continue; yield { ts, tag, attrs: [{ n, v }], ch, pragma: 'none' }; }
   }
   // (2) pairs over the core
   for (const tag of thorough ? tags.filter((t) => t !== 'frag') : ['div', 'Comp', 'nstag']) {
     for (const n1 of NAME_CORE) for (const v1 of VALUE_CORE) for (const n2 of NAME_CORE) for (const v2 of VALUE_CORE) {
       if (n1 === n2) continue;
+      if ((n1[0] === '{' && v1 !== 'absent') || (n2[0] === '{' && v2 !== 'absent')) continue;
       yield { ts: false, tag, attrs: [{ n: n1, v: v1 }, { n: n2, v: v2 }], ch: 'none', pragma: 'none' };
     }
   }
@@ -61,7 +62,7 @@ function* cases(tier) {
     yield { ts: false, tag, attrs: tag === 'frag' ? [] : [{ n: 'p', v: 'x' }], ch, pragma, o };
   }
   // (4) option corners on single attributes
-  for (const o of OPT_CORNERS.slice(1)) for (const tag of ['div', 'Comp']) for (const n of ATTR_NAMES) for (const v of VALUE_CORE) yield { ts: !!o.resolveType, tag, attrs: [{ n, v }], ch: 'none', pragma: 'none', o };
+  for (const o of OPT_CORNERS.slice(1)) for (const tag of ['div', 'Comp']) for (const n of ATTR_NAMES) for (const v of VALUE_CORE) if (n[0] !== '{' || v === 'absent') yield { ts: !!o.resolveType, tag, attrs: [{ n, v }], ch: 'none', pragma: 'none', o };
 }
 
 function* shrink(c) {
